@@ -39,8 +39,24 @@ def seeded():
         out.append("| %s | %s | %s | %s | %s |" % (d, m["property"], m["needs_to_manifest"].replace("|", "\\|"), " ".join(m["caught_by_quick_checks"]), notes.get(d, "")))
     return "\n".join(out)
 
+def seededsummary():
+    notes = json.load(open(os.path.join(ROOT, "seeded", "NOTES.json")))
+    ids = [d for d in sorted(os.listdir(os.path.join(ROOT, "seeded"))) if os.path.exists(os.path.join(ROOT, "seeded", d, "meta.json"))]
+    missed = [d for d in ids if d in notes]
+    per = {}
+    for d in ids:
+        per[d[-1]] = per.get(d[-1], 0) + 1
+    mper = {}
+    for d in missed:
+        mper[d[-1]] = mper.get(d[-1], 0) + 1
+    rounds = ", ".join("round %s: %d of %d" % (r, mper.get(r, 0), per[r]) for r in sorted(per))
+    return ("Result: all %d kept changes are reported by the **quick** tier of the check of the\n"
+            "property they were seeded for (a few by neighbouring properties as well), in\n"
+            "most cases by all sixteen shards. %d of them were missed, or caught by a single\n"
+            "shard only, when first tried (%s)." % (len(ids), len(missed), rounds))
+
 p = os.path.join(ROOT, "DESIGN.md")
 s = open(p).read()
-for name, f in (("cost", cost), ("seeded", seeded)):
+for name, f in (("cost", cost), ("seeded", seeded), ("seededsummary", seededsummary)):
     s = re.sub(r"(<!-- BEGIN:%s -->\n).*?(\n<!-- END:%s -->)" % (name, name), lambda m: m.group(1) + f() + m.group(2), s, flags=re.S)
 open(p, "w").write(s)
